@@ -497,10 +497,11 @@ Record variant := mkV {
   v_type_pre_arg : bool;                (* C18-fix-2: _filter_by_type records arg, not self *)
   v_inv_guard : bool;                   (* C18-fix-3: inverse_filter(depth) with no filters *)
   v_cm_guard : bool;                    (* C18-fix-6: cell_methods with no key found *)
-  v_pop_default : bool }.               (* C18-fix-7: inverse_filter pops with a default *)
+  v_pop_default : bool;                 (* C18-fix-7: inverse_filter pops with a default *)
+  v_keep_filters : bool }.              (* C18-fix3-1/2: the fall-back of domain_axes / cell_methods keeps the other filters *)
 
-Definition cur : variant := mkV identities_short true true true true true.
-Definition old : variant := mkV identities_short_old false false false false false.
+Definition cur : variant := mkV identities_short true true true true true true.
+Definition old : variant := mkV identities_short_old false false false false false false.
 
 Definition run_filter (V : variant) (E : env) (am : amode) (pm : list string) (f : fspec)
            (arg : list construct) : result (list construct) :=
@@ -651,43 +652,59 @@ Definition return_construct (sel : list construct) : picked :=
   | _ => NotUnique (length sel)
   end.
 
-(* Constructs.domain_axes(identities...) with no other filter keyword *)
-Definition domain_axes (V : variant) (E : env) (ids : list val) : list construct :=
-  let das := by_type ["domain_axis"] (e_self E) in
-  match ids with
-  | [] => das
-  | _ =>
-      let matched := fbi_matched (v_short V) ids das in
-      let hits := fbi_hits (v_short V) ids das in
-      let misses := filter (fun v => negb (existsb (val_eqb v) hits)) ids in
-      match misses with
-      | [] => filter (fun c => mem (c_key c) matched) das
+(* Constructs.domain_axes(identities..., filters...): the keyword filters
+   [fs] are applied after filter_by_type and before the identities.  When some
+   identity matches no domain axis, the unmatched ones are converted (1-d
+   coordinate identity, position in the field data) and the result is the
+   domain axes that pass [fs] and have one of the keys found; before
+   C18-fix3-1 that fall-back forgot [fs]. *)
+Definition domain_axes (V : variant) (E : env) (fs : list fspec) (ids : list val)
+  : result (list construct) :=
+  match run_chain V E AAnd ["and"] (FType ["domain_axis"] :: fs) (e_self E) with
+  | Err e => Err e
+  | Ok das =>
+      match ids with
+      | [] => Ok das
       | _ =>
-          let keys := matched +++ convert (v_short V) (v_da_root V) E false misses in
-          filter (fun c => mem (c_key c) keys) das
+          let matched := fbi_matched (v_short V) ids das in
+          let hits := fbi_hits (v_short V) ids das in
+          let misses := filter (fun v => negb (existsb (val_eqb v) hits)) ids in
+          match misses with
+          | [] => Ok (filter (fun c => mem (c_key c) matched) das)
+          | _ =>
+              let keys := matched +++ convert (v_short V) (v_da_root V) E false misses in
+              Ok (filter (fun c => mem (c_key c) keys)
+                         (if v_keep_filters V then das else by_type ["domain_axis"] (e_self E)))
+          end
       end
   end.
 
-(* Field.cell_methods(identities...) with no other filter keyword *)
-Definition cell_methods (V : variant) (E : env) (ids : list val) : list construct :=
-  let cms := by_type ["cell_method"] (e_self E) in
-  match ids with
-  | [] => cms
-  | _ =>
-      let matched := fbi_matched (v_short V) ids cms in
-      let hits := fbi_hits (v_short V) ids cms in
-      let misses := filter (fun v => negb (existsb (val_eqb v) hits)) ids in
-      match misses with
-      | [] => filter (fun c => mem (c_key c) matched) cms
+(* Field.cell_methods(identities..., filters...) *)
+Definition cell_methods (V : variant) (E : env) (fs : list fspec) (ids : list val)
+  : result (list construct) :=
+  match run_chain V E AAnd ["and"] (FType ["cell_method"] :: fs) (e_self E) with
+  | Err e => Err e
+  | Ok cms =>
+      match ids with
+      | [] => Ok cms
       | _ =>
-          let das := keys_of (domain_axes V E misses) in
-          let extra := keys_of (filter (fun c => match c_maxes c with
-                                                 | [a] => mem a das
-                                                 | _ => false
-                                                 end) cms) in
-          match matched +++ extra with
-          | [] => if v_cm_guard V then [] else cms
-          | keys => filter (fun c => mem (c_key c) keys) cms
+          let matched := fbi_matched (v_short V) ids cms in
+          let hits := fbi_hits (v_short V) ids cms in
+          let misses := filter (fun v => negb (existsb (val_eqb v) hits)) ids in
+          match misses with
+          | [] => Ok (filter (fun c => mem (c_key c) matched) cms)
+          | _ =>
+              let all_cms := by_type ["cell_method"] (e_self E) in
+              let das := match domain_axes V E [] misses with Ok d => keys_of d | Err _ => [] end in
+              let extra := keys_of (filter (fun c => match c_maxes c with
+                                                     | [a] => mem a das
+                                                     | _ => false
+                                                     end) all_cms) in
+              let pool := if v_keep_filters V then cms else all_cms in
+              match matched +++ extra with
+              | [] => if v_cm_guard V then Ok [] else Ok pool
+              | keys => Ok (filter (fun c => mem (c_key c) keys) pool)
+              end
           end
       end
   end.
